@@ -66,6 +66,33 @@ func makeCA(cn string) tls.Certificate {
 	return tls.Certificate{Certificate: [][]byte{der}, PrivateKey: priv}
 }
 
+// makeIntermediate: a CA certificate issued by parent; the returned bundle carries the chain (own certificate first)
+func makeIntermediate(cn string, parent tls.Certificate) tls.Certificate {
+	pc, err := x509.ParseCertificate(parent.Certificate[0])
+	if err != nil {
+		panic(err)
+	}
+	tmpl := &x509.Certificate{
+		SerialNumber:          big.NewInt(5678),
+		Subject:               pkix.Name{CommonName: cn},
+		NotBefore:             time.Now().Add(-time.Hour),
+		NotAfter:              time.Now().AddDate(5, 0, 0),
+		IsCA:                  true,
+		ExtKeyUsage:           []x509.ExtKeyUsage{x509.ExtKeyUsageClientAuth, x509.ExtKeyUsageServerAuth},
+		KeyUsage:              x509.KeyUsageDigitalSignature | x509.KeyUsageCertSign,
+		BasicConstraintsValid: true,
+	}
+	pub, priv, err := ed25519.GenerateKey(rand.Reader)
+	if err != nil {
+		panic(err)
+	}
+	der, err := x509.CreateCertificate(rand.Reader, tmpl, pc, pub, parent.PrivateKey)
+	if err != nil {
+		panic(err)
+	}
+	return tls.Certificate{Certificate: [][]byte{der, parent.Certificate[0]}, PrivateKey: priv}
+}
+
 func keyHash(pub ed25519.PublicKey) []byte {
 	h := sha256.Sum256(pub)
 	return h[:]
@@ -157,6 +184,7 @@ func (x indexer) of(s string) int {
 type world struct {
 	server   *implpki.Server
 	clientCA tls.Certificate
+	rootCA   tls.Certificate // the issuer of the client CA (second certificate of its bundle)
 	pool     *x509.CertPool
 }
 
@@ -251,11 +279,14 @@ func (w *world) renew(i int, c renewCase, variant int) renewObs {
 		oldDer, err = pki.GenerateCertificate(logger, w.clientCA, pki.IdentityRequest{PublicKey: pubA, Subject: subject})
 		how = append(how, "issued-by-client-CA")
 	default:
-		switch variant % 3 {
-		case 0: // another CA with the same name as the client CA
+		switch variant % 4 {
+		case 0: // the issuer of the client CA itself: in the configured bundle, but not the client CA
+			oldDer, err = pki.GenerateCertificate(logger, w.rootCA, pki.IdentityRequest{PublicKey: pubA, Subject: subject})
+			how = append(how, "issued-by-the-client-CA's-own-issuer")
+		case 1: // another CA with the same name as the client CA
 			oldDer, err = pki.GenerateCertificate(logger, makeCA("client ca"), pki.IdentityRequest{PublicKey: pubA, Subject: subject})
 			how = append(how, "foreign-CA-same-name")
-		case 1:
+		case 2:
 			oldDer, err = pki.GenerateCertificate(logger, makeCA("someone else"), pki.IdentityRequest{PublicKey: pubA, Subject: subject})
 			how = append(how, "foreign-CA")
 		default: // self-signed by the client key itself
@@ -370,11 +401,14 @@ func main() {
 	if len(os.Args) > 1 {
 		variants, _ = strconv.Atoi(os.Args[1])
 	}
-	ca := makeCA("client ca")
+	// the client CA is an intermediate configured with its chain (what tls.X509KeyPair yields from a chain file): certificate 0 is the
+	// client CA, certificate 1 its issuer, which is NOT the client CA
+	root := makeCA("verif root")
+	ca := makeIntermediate("client ca", root)
 	caCert, _ := x509.ParseCertificate(ca.Certificate[0])
 	pool := x509.NewCertPool()
 	pool.AddCert(caCert)
-	w := &world{server: &implpki.Server{Logger: zap.NewNop(), ClientCA: ca}, clientCA: ca, pool: pool}
+	w := &world{server: &implpki.Server{Logger: zap.NewNop(), ClientCA: ca}, clientCA: ca, rootCA: root, pool: pool}
 
 	var cases []renewCase
 	verifkit.EachCase(func(i int, raw json.RawMessage) {
